@@ -27,6 +27,15 @@ CLAIMED = {
    technique="symbolic execution of Numba typed IR + z3 (QF_BV; QF_FPBV with uninterpreted pow for _log_counter): one add step from an arbitrary table, callee-contract decomposition for the log kernels",
    text="One step of the real add kernels from an arbitrary table with all cells, both keys' columns and the multiplicity symbolic: every clause of C05 for linear (all uint32 v) and for log16/log8 (all uint64 v, symbolic num_reserved) with _log_counter summarised by a contract that is itself proved against the real _log_counter (loop body with symbolic counter/num_reserved/base, plus configuration-concrete end-to-end unrollings). Counterexamples are replayed through the public API with the table and draws installed.",
    note="Bounded in shape; the composition 'v iterations of the proved loop body satisfy the contract' is an induction in prose; states are arbitrary tables (a superset of the reachable ones) installed through the documented public arrays in replays."),
+
+ "C03": dict(engine=K, category="model_checking", design="6 C03",
+   technique="symbolic execution of Numba typed IR + z3 (QF_UFBV): inductive invariant with an uninterpreted ghost count function over key identities, plus bounded histories with symbolic key bytes",
+   text="Invariant 'every non-empty cell's count <= true count of the identity it stores' (identity = stored length + bytes, zero padding as representation invariant) is proved preserved by the real _add (key lengths 0..max_key_len+1, bytes symbolic) and _merge, and sufficient for _max_count(key) <= true count and 'never a key that was not added'. Bounded histories from empty sketches with symbolic key bytes (NUL bytes, aliases, over-long keys included by construction) find real counterexamples, replayed through add/merge/hh[key]/query(). This check found defect F1 (repaired in /repo commit ec85dfa).",
+   note="Bounded: max_key_len <= 3 (quick) / 4 (thorough), width,depth <= 2-3, K <= 4 operations; hash stubbed as columns; query()/candidate-set glue is decided under C13."),
+ "C04": dict(engine=K, category="model_checking", design="6 C04",
+   technique="symbolic execution of Numba typed IR + z3 (QF_BV + LIA glue): ghost-free Boyer-Moore potential lemmas per kernel step, linear-arithmetic glue to the invariant Phi >= 2f - W, plus bounded histories with symbolic key bytes",
+   text="For a tracked identity y and its cell in every row: one _add(y,v) raises the potential by exactly v, one _add(z!=y,v) lowers it by at most v (only if z shares the cell), _merge is super-additive, and _max_count(y) >= any positive potential -- each proved on the real kernels from an arbitrary sketch absent 32-bit saturation; a linear-arithmetic query shows these imply hh[y] >= max_r(2f - W_r). Bounded histories (symbolic key bytes, 2 sketches, K <= 4) find real counterexamples incl. merge-order dependent ones.",
+   note="Saturated cells excluded as the property states; bounded shapes/key lengths; 'query() contains the key / majority key first' additionally rests on C13's query lemmas and is judged directly in every replay."),
 }
 NA = {}
 ALL = sorted(TITLES)
